@@ -1,4 +1,4 @@
-SPECIFICATION TSpecR
+SPECIFICATION Spec
 CONSTANTS
   Classes <- MCClasses
   QNs <- MCQNs
@@ -6,6 +6,8 @@ CONSTANTS
   CachePolicy = "class"
   Vars <- MCVars
   MemoPolicy = "qname"
-CONSTRAINT Progress
-POSTCONDITION Accepted
+  MaxLen = 4
+  KnownF3 = TRUE
+VIEW View
+INVARIANT HistoryIndependence
 CHECK_DEADLOCK FALSE
